@@ -126,7 +126,7 @@ def make_transform(name, log, starts=None):
     def drop_odd(f):
         log.append(_start(f))
         idx = len(log) - 1          # the i-th feature handed over (starts repeat in the longer annotations)
-        return f if idx % 2 == 0 else None
+        return f if idx % 2 == 0 else (None, False, 0, "")[(idx // 2) % 4]         # any false value means "skip"
 
     return modify if name == "modify" else drop_odd
 
